@@ -38,6 +38,10 @@ class Symbols:
             self.rule(n)
 
     def rule(self, name: str) -> int:
+        if name == "SKIP" and getattr(self, "user_skip", False):
+            # the grammar itself defines a rule called SKIP: it is an ordinary rule, not the optimizer's fused
+            # trivia rule (which keeps the reserved identifier)
+            name = "SKIP$user"
         if name not in self.ids:
             self.ids[name] = len(self.names)
             self.names.append(name)
@@ -343,6 +347,11 @@ def export_parser(parser: object, roots: list[str] | None = None, syms: Symbols 
     rules = parser.rules
     if roots is None:
         roots = [n for n, r in rules.items() if not isinstance(r, _rule.BuiltInRule)]
+    if syms is None:
+        # decided once, from the unoptimized table: an optimizer that replaced the user's rule by its fused one
+        # is then exported under the user's identifier and the validator sees the changed modifiers
+        syms = Symbols()
+        syms.user_skip = "SKIP" in rules and rules["SKIP"].modifier != _rule.SILENT_ATOMIC
     ex = Exporter(rules, syms)
     text = ex.export(roots)
     # built-in rules other than EOI are inlined by the code generator (BuiltInRule.generate): Gen.v is told which
